@@ -213,7 +213,9 @@ def gauss_cases(draw, tier="quick"):
          "scale_pow": draw(st.sampled_from([0, 0, 0, -5, 3, 9])),
          "sparse_format": draw(st.sampled_from(["csr", "csr", "csc", "dia", "coo"])),
          # integer-typed vector parameters (variances 1, 4, 9 ... written as ints, as an array or a list)
-         "int_dtype": draw(st.sampled_from([False, False, False, True])), "as_list": draw(st.booleans())}
+         "int_dtype": draw(st.sampled_from([False, False, False, True])), "as_list": draw(st.booleans()),
+         # memory layout of dense matrix / vector arguments (Fortran order, non-contiguous view, negative strides, read-only)
+         "layout": draw(st.sampled_from(gen.LAYOUTS))}
     if c["int_dtype"] and structure == "vector" and param in ("cov", "prec"):
         ivals = [float(draw(st.integers(1, 9))) for _ in range(n)]
         c["var"] = ivals if param == "cov" else [1.0 / v for v in ivals]
@@ -281,15 +283,15 @@ def gauss_arg(c):
         if st_ == "vector":
             if c.get("int_dtype") and np.all(dvals == np.round(dvals)):
                 return [int(v) for v in dvals] if c.get("as_list") else dvals.astype(int)    # integer-typed variances / precisions
-            return dvals.copy()
-        return np.diag(dvals)
+            return gen.relayout(dvals, c.get("layout", "plain"))
+        return gen.relayout(np.diag(dvals), c.get("layout", "plain"))
     if par in ("sqrtcov", "sqrtprec"):
         Q = c["Q"] if not c.get("true_size") else np.random.RandomState(c["seedG"] + 1).uniform(-1, 1, (n, n))
         M = sqrt_of(M, c["sqrt_kind"], Q)
     if st_ == "sparse":
         # any scipy sparse format is a sparse matrix (scipy.sparse.diags returns the DIA format)
         return {"csr": sp.csr_matrix, "csc": sp.csc_matrix, "dia": sp.dia_matrix, "coo": sp.coo_matrix}[c.get("sparse_format", "csr")](M)
-    return M
+    return gen.relayout(M, c.get("layout", "plain"))
 
 
 def superlu_reorders(c):
